@@ -264,6 +264,62 @@ Proof.
   - rewrite Hlas, C02Proofs.las_after_length. exact HL1.
 Qed.
 
+(* ------------------------------------------------------------------------------------------ *)
+(* C12_status_reply_in_slot: the arithmetic                                                     *)
+
+(* a bit count as a time, rounded UP to whole microseconds (bits_to_time rounds down) *)
+Definition bits_to_time_up (b : baudrate) (bits : Z) : Z := (bits * 1000000 + baud_to_rate b - 1) / baud_to_rate b.
+
+Lemma baud_rate_pos b : 0 < baud_to_rate b.
+Proof. destruct b; reflexivity. Qed.
+
+Lemma bits_to_time_mono b n m : n <= m -> bits_to_time b n <= bits_to_time b m.
+Proof. intros H. unfold bits_to_time. apply Z.div_le_mono; [apply baud_rate_pos|lia]. Qed.
+
+(* For every parameter set the builder accepts: a poll period of at most a quarter of the slot time
+   leaves room for two poll periods, the synchronisation pause (33 bit), the first byte of the reply
+   (11 bit, rounded up) and one microsecond of rounding of the requester's own time stamp. *)
+Lemma slot_time_covers_reply p P :
+  builder_valid p -> 0 <= P -> 4 * P <= slot_time p ->
+  2 * P + p_bits_to_time p sync_pause_bits + bits_to_time_up (p_baud p) bits_per_byte + 1 <= slot_time p.
+Proof.
+  intros [_ [[Hmin _] _]] HP H4.
+  assert (Hs : bits_to_time (p_baud p) (min_slot_bits (p_baud p)) <= slot_time p)
+    by (apply bits_to_time_mono; exact Hmin).
+  unfold p_bits_to_time, bits_to_time_up in *. unfold bits_to_time in Hs |- *.
+  destruct (p_baud p); vm_compute baud_to_rate in *; vm_compute min_slot_bits in Hs;
+    change sync_pause_bits with 33; change bits_per_byte with 11;
+    match goal with |- context [33 * 1000000 / ?r] => let v := eval vm_compute in (33 * 1000000 / r) in change (33 * 1000000 / r) with v end;
+    match goal with |- context [(11 * 1000000 + ?r - 1) / ?r] => let v := eval vm_compute in ((11 * 1000000 + r - 1) / r) in change ((11 * 1000000 + r - 1) / r) with v end;
+    match type of Hs with ?a <= _ => let v := eval vm_compute in a in change a with v in Hs end; lia.
+Qed.
+
+(* the silence time-out (6 + 2 * address slot times) is far away *)
+Lemma token_lost_timeout_ge_slot p : builder_valid p -> slot_time p <= token_lost_timeout p.
+Proof.
+  intros [[Ha _] [[Hmin _] _]]. unfold slot_time, token_lost_timeout, p_bits_to_time.
+  apply bits_to_time_mono.
+  assert (0 <= p_slot_bits p) by (pose proof Hmin; destruct (p_baud p); cbn in *; lia).
+  change token_lost_base with 6. change token_lost_per_addr with 2. nia.
+Qed.
+
+(* poll times: each at most P after the one before, starting after `prev` *)
+Fixpoint spaced (prev P : Z) (times : list Z) : Prop :=
+  match times with [] => True | t :: r => prev < t <= prev + P /\ spaced t P r end.
+
+Lemma spaced_first_after prev P T waits tk :
+  0 <= T -> 0 <= P -> spaced prev P (waits ++ [tk]) -> Forall (fun t => t <= prev + T) waits ->
+  tk <= prev + T + P /\ Forall (fun t => prev < t) waits /\ prev < tk.
+Proof.
+  intros HT HP. revert prev T HT. induction waits as [|t r IH]; intros prev T HT Hs Hf.
+  - cbn in Hs. split; [lia|]. split; [constructor|lia].
+  - cbn [app spaced] in Hs. destruct Hs as [Ht Hs]. inversion Hf as [|? ? Hft Hfr]; subst.
+    destruct (IH t (prev + T - t) ltac:(lia) Hs) as [I1 [I2 I3]].
+    + apply Forall_forall. intros x Hx. rewrite Forall_forall in Hfr. specialize (Hfr x Hx). lia.
+    + split; [lia|]. split; [|lia]. constructor; [lia|].
+      apply Forall_forall. intros x Hx. rewrite Forall_forall in I2. specialize (I2 x Hx). lia.
+Qed.
+
 Section WithApps.
 Variable A : Type.
 Variable ops : app_ops A.
@@ -2308,6 +2364,220 @@ Proof.
       destruct Hr as [[Hm _]|[_ R]]; [|congruence].
       exfalso. apply Hno. subst received. apply receive_telegram_some in Hrcv. destruct Hrcv as [n [Hd' _]].
       exists t', n. split; assumption.
+Qed.
+
+(* the found station gets the next token: after the accepted reply every transmission of the
+   following polls (PassToken{do_gap: No}) is the token TS -> a0 *)
+Theorem found_gets_next_token f now pin (apps : list A) f' o apps' calls a0 t n
+        now2 pin2 (apps2 : list A) f'' o2 apps2' calls2 wire :
+  poll ops f now pin apps = Ok (f', o, apps', calls) ->
+  f_state f = AwaitStatusResponse a0 ->
+  f_conn f = ConnOnline -> tx_busy pin = false -> (forall l, f_lba f = Some l -> l < now) ->
+  decode (rx pin) = Ok (Accept t n) -> is_master_ready_reply (ts f) a0 t ->
+  length (r_las (f_ring f)) = 128%nat -> r_ts (f_ring f) = ts f -> 0 <= ts f < 128 ->
+  poll ops f' now2 pin2 apps2 = Ok (f'', o2, apps2', calls2) -> tx o2 = Some wire ->
+  r_ns (f_ring f') = a0 /\ wire = encode_token a0 (ts f).
+Proof.
+  intros H Hst Hc Hb Hl Hd Hm HL Hrts Hts H2 Htx.
+  destruct (found_becomes_successor _ _ _ _ _ _ _ _ _ _ _ H (or_introl Hst) Hc Hb Hl Hd Hm)
+    as [Hne [Hset [_ [_ [_ [_ [Hp [Hs' _]]]]]]]].
+  specialize (Hs' Hst).
+  destruct (set_next_station_effect _ _ _ HL ltac:(rewrite Hrts; exact Hts) ltac:(rewrite Hrts; exact Hne) Hset) as [_ [Hns _]].
+  split; [exact Hns|].
+  destruct (after_gap_request_step _ _ _ _ _ _ _ _ H2 ltac:(rewrite Hs'; reflexivity)) as [_ [_ [[T _]|[T _]]]].
+  - rewrite T in Htx. discriminate Htx.
+  - rewrite T in Htx. injection Htx as <-. rewrite Hns. unfold ts. rewrite Hp. reflexivity.
+Qed.
+
+(* ------------------------------------------------------------------------------------------ *)
+(* C12_status_reply_truth                                                                       *)
+
+(* A listening or idle station transmits nothing but (a) the claim token after its silence time-out
+   and (b) the status reply to the pending requester, with the state the code prescribes. *)
+Theorem listen_idle_transmissions f now pin (apps : list A) f' o apps' calls wire :
+  poll ops f now pin apps = Ok (f', o, apps', calls) ->
+  kind_of (f_state f) = KListenToken \/ kind_of (f_state f) = KActiveIdle ->
+  tx o = Some wire ->
+  calls = [] /\
+  ((wire = encode_token (ts f) (ts f) /\ f_state f' = ClaimToken StepSecondToken) \/
+   (exists src st, marker (f_state f) = Some src /\ wire = reply_wire src (ts f) st /\ reply_sent f f' src st)).
+Proof.
+  intros H Hk Htx. pose proof (poll_transmissions _ _ _ _ _ _ _ _ _ H Htx) as Hc.
+  destruct Hc as [Y|[Yc [Y|[Y|Y]]]].
+  - exfalso. destruct Y as [cs [i [hp [er [_ [[K|K] _]]]]]]; destruct Hk as [Q|Q]; rewrite Q in K; discriminate K.
+  - split; [exact Yc|]. left. destruct Y as [da [Hw [[Hda [[S _]|[_ S]]]|[_ [K|[K|K]]]]]].
+    + subst da. split; assumption.
+    + exfalso. destruct Hk as [Q|Q]; rewrite S in Q; discriminate Q.
+    + exfalso. destruct Hk as [Q|Q]; rewrite Q in K; discriminate K.
+    + exfalso. destruct Hk as [Q|Q]; rewrite Q in K; discriminate K.
+    + exfalso. destruct Hk as [Q|Q]; rewrite Q in K; discriminate K.
+  - exfalso. destruct Y as [a [_ [_ [_ [_ [_ [[_ [att S]]|[_ [S|[a0 S]]]]]]]]]]; destruct Hk as [Q|Q]; rewrite S in Q; discriminate Q.
+  - split; [exact Yc|]. right. destruct Y as [src [st [Hw Hr]]]. exists src, st. split; [|split; assumption].
+    destruct Hr as [[cc [S _]]|[nps [cc [S _]]]]; rewrite S; reflexivity.
+Qed.
+
+(* the reported state is truthful, as coded: "not ready" while the LAS is not valid (and also to
+   anybody but the predecessor), "ready" iff the LAS is valid and the requester is PS, "in ring"
+   exactly in the ring state ActiveIdle; never "slave" *)
+Theorem reply_state_truth f f' src st : reply_sent f f' src st ->
+  (st = RsMasterInRing <-> exists nps cc, f_state f = ActiveIdle (Some src) nps cc) /\
+  (st = RsMasterWithoutToken <->
+     (exists cc, f_state f = ListenToken (Some src) cc) /\ ready_for_ring (f_ring f) = true /\ src = r_ps (f_ring f)) /\
+  (st = RsMasterNotReady <->
+     (exists cc, f_state f = ListenToken (Some src) cc) /\ ~ (ready_for_ring (f_ring f) = true /\ src = r_ps (f_ring f))) /\
+  st <> RsSlave.
+Proof.
+  intros [[cc [S [-> _]]]|[nps [cc [S [-> _]]]]].
+  - unfold listen_reply_ready, listen_reply_not_ready.
+    destruct (ready_for_ring (f_ring f)) eqn:Er; destruct (Z.eqb_spec src (r_ps (f_ring f))) as [E|E]; cbn [andb].
+    + split; [split; [discriminate|intros [nps [cc' X]]; rewrite S in X; discriminate X]|].
+      split; [split; [intros _; split; [exists cc; exact S|split; [reflexivity|exact E]]|reflexivity]|].
+      split; [split; [discriminate|intros [_ N]; exfalso; apply N; split; [reflexivity|exact E]]|discriminate].
+    + split; [split; [discriminate|intros [nps [cc' X]]; rewrite S in X; discriminate X]|].
+      split; [split; [discriminate|intros [_ [_ X]]; contradiction]|].
+      split; [split; [intros _; split; [exists cc; exact S|intros [_ X]; contradiction]|reflexivity]|discriminate].
+    + split; [split; [discriminate|intros [nps [cc' X]]; rewrite S in X; discriminate X]|].
+      split; [split; [discriminate|intros [_ [X _]]; discriminate X]|].
+      split; [split; [intros _; split; [exists cc; exact S|intros [X _]; discriminate X]|reflexivity]|discriminate].
+    + split; [split; [discriminate|intros [nps [cc' X]]; rewrite S in X; discriminate X]|].
+      split; [split; [discriminate|intros [_ [X _]]; discriminate X]|].
+      split; [split; [intros _; split; [exists cc; exact S|intros [X _]; discriminate X]|reflexivity]|discriminate].
+  - unfold active_idle_reply.
+    split; [split; [intros _; exists nps, cc; exact S|reflexivity]|].
+    split; [split; [discriminate|intros [[cc' X] _]; rewrite S in X; discriminate X]|].
+    split; [split; [discriminate|intros [[cc' X] _]; rewrite S in X; discriminate X]|discriminate].
+Qed.
+
+(* ------------------------------------------------------------------------------------------ *)
+(* C12_status_reply_in_slot                                                                     *)
+
+Definition idle_in : phy_in := mkPhyIn false [].
+Definition t_sync (f : fdl) : Z := p_bits_to_time (f_p f) sync_pause_bits.
+
+Definition reply_pending (f : fdl) (src : Z) : Prop :=
+  (exists cc, f_state f = ListenToken (Some src) cc) \/ (exists nps cc, f_state f = ActiveIdle (Some src) nps cc).
+
+Lemma t_sync_bounds f : 0 <= t_sync f <= 100000 * 1000000.
+Proof. unfold t_sync, p_bits_to_time. apply bits_to_time_bounds. vm_compute. split; discriminate. Qed.
+
+(* before the pause is over the station waits: nothing is transmitted, nothing changes *)
+Lemma reply_waits f src l now (apps : list A) :
+  f_conn f = ConnOnline -> reply_pending f src -> f_lba f = Some l -> time_ok l -> time_ok now ->
+  l < now <= l + t_sync f -> now - l < token_lost_timeout (f_p f) ->
+  poll ops f now idle_in apps = Ok (f, mkPhyOut None [], apps, []).
+Proof.
+  intros Hc Hst Hl Tl Tn Hnow Hto. pose proof (t_sync_bounds f) as Hb. unfold t_sync in *.
+  unfold poll, poll_traced, poll_inner. rewrite Hc. cbn [tx_busy rx idle_in].
+  assert (Hk : online_entry_kind (kind_of (f_state f)) = false)
+    by (destruct Hst as [[cc ->]|[nps [cc ->]]]; reflexivity).
+  rewrite Hk. cbn [bind].
+  unfold check_for_ongoing_transmision. rewrite Hl.
+  destruct (Z.leb_spec now l) as [C|_]; [lia|]. rewrite andb_false_r. cbn [orb].
+  unfold check_for_bus_activity. cbn [w_rx length]. replace (Nat.ltb (f_pending f) 0) with false by (symmetry; apply Nat.ltb_ge; lia).
+  assert (Hdiff : inst_diff now l = Ok (now - l)).
+  { unfold inst_diff, time_ok in *. rewrite i64_ok_small by lia. rewrite Z.abs_eq by lia. reflexivity. }
+  assert (Hadd : inst_add l (p_bits_to_time (f_p f) sync_pause_bits) = Ok (l + p_bits_to_time (f_p f) sync_pause_bits)).
+  { unfold inst_add, time_ok in *. rewrite i64_ok_small by lia. reflexivity. }
+  destruct Hst as [[cc Hs]|[nps [cc Hs]]]; rewrite Hs; cbn [kind_of poll_dispatch].
+  - unfold do_listen_token, assert_entry. rewrite Hs. cbn [f_state kind_of do_fn_entry state_kind_eqb bind].
+    unfold handle_lost_token, lba_get_or_insert. rewrite Hl, Hdiff. cbn [bind].
+    destruct (Z.leb_spec (token_lost_timeout (f_p f)) (now - l)) as [C|_]; [lia|]. cbn [bind].
+    rewrite Hs. cbn [get_listen_token bind].
+    unfold wait_synchronization_pause, lba_get_or_insert. rewrite Hl, Hadd. cbn [bind].
+    destruct (Z.leb_spec now (l + p_bits_to_time (f_p f) sync_pause_bits)) as [_|C]; [|lia]. reflexivity.
+  - unfold do_active_idle, assert_entry. rewrite Hs. cbn [f_state kind_of do_fn_entry state_kind_eqb bind].
+    unfold handle_lost_token, lba_get_or_insert. rewrite Hl, Hdiff. cbn [bind].
+    destruct (Z.leb_spec (token_lost_timeout (f_p f)) (now - l)) as [C|_]; [lia|]. cbn [bind].
+    rewrite Hs. cbn [get_active_idle bind].
+    unfold wait_synchronization_pause, lba_get_or_insert. rewrite Hl, Hadd. cbn [bind].
+    destruct (Z.leb_spec now (l + p_bits_to_time (f_p f) sync_pause_bits)) as [_|C]; [|lia]. reflexivity.
+Qed.
+
+(* the first poll later than the pause transmits the reply *)
+Lemma reply_goes_out f src l now (apps : list A) :
+  f_conn f = ConnOnline -> reply_pending f src -> f_lba f = Some l -> time_ok l -> time_ok now ->
+  l + t_sync f < now -> now - l < token_lost_timeout (f_p f) ->
+  exists f' st, poll ops f now idle_in apps = Ok (f', mkPhyOut (Some (reply_wire src (ts f) st)) [], apps, []) /\
+                reply_sent f f' src st.
+Proof.
+  intros Hc Hst Hl Tl Tn Hnow Hto. pose proof (t_sync_bounds f) as Hb. unfold t_sync in *.
+  pose proof (bits_to_time_bounds (p_baud (f_p f)) (bits_per_byte * 6) ltac:(vm_compute; split; discriminate)) as Hb2.
+  unfold poll, poll_traced, poll_inner. rewrite Hc. cbn [tx_busy rx idle_in].
+  assert (Hk : online_entry_kind (kind_of (f_state f)) = false)
+    by (destruct Hst as [[cc ->]|[nps [cc ->]]]; reflexivity).
+  rewrite Hk. cbn [bind].
+  unfold check_for_ongoing_transmision. rewrite Hl.
+  destruct (Z.leb_spec now l) as [C|_]; [lia|]. rewrite andb_false_r. cbn [orb].
+  unfold check_for_bus_activity. cbn [w_rx length]. replace (Nat.ltb (f_pending f) 0) with false by (symmetry; apply Nat.ltb_ge; lia).
+  assert (Hdiff : inst_diff now l = Ok (now - l)).
+  { unfold inst_diff, time_ok in *. rewrite i64_ok_small by lia. rewrite Z.abs_eq by lia. reflexivity. }
+  assert (Hadd : inst_add l (p_bits_to_time (f_p f) sync_pause_bits) = Ok (l + p_bits_to_time (f_p f) sync_pause_bits)).
+  { unfold inst_add, time_ok in *. rewrite i64_ok_small by lia. reflexivity. }
+  assert (Hmark : forall g, f_p g = f_p f -> mark_tx g now 6 = Ok (set_lba g (Some (now + bits_to_time (p_baud (f_p f)) (bits_per_byte * 6))))).
+  { intros g Hg. unfold mark_tx. change (Z.of_nat 6) with 6.
+    replace (4294967295 <? 6) with false by reflexivity. replace (4294967295 <? bits_per_byte * 6) with false by reflexivity.
+    rewrite Hg. unfold inst_add, time_ok in *. rewrite i64_ok_small by lia. reflexivity. }
+  destruct Hst as [[cc Hs]|[nps [cc Hs]]]; rewrite Hs; cbn [kind_of poll_dispatch].
+  - unfold do_listen_token, assert_entry. rewrite Hs. cbn [f_state kind_of do_fn_entry state_kind_eqb bind].
+    unfold handle_lost_token, lba_get_or_insert. rewrite Hl, Hdiff. cbn [bind].
+    destruct (Z.leb_spec (token_lost_timeout (f_p f)) (now - l)) as [C|_]; [lia|]. cbn [bind].
+    rewrite Hs. cbn [get_listen_token bind].
+    unfold wait_synchronization_pause, lba_get_or_insert. rewrite Hl, Hadd. cbn [bind].
+    destruct (Z.leb_spec now (l + p_bits_to_time (f_p f) sync_pause_bits)) as [C|_]; [lia|].
+    unfold phy_send, transmit, status_response_header. rewrite encode_nosap. cbn [bind phy_transmit w_tx].
+    destruct (ready_for_ring (f_ring f)) eqn:Er.
+    + unfold trans, transition_active_idle, assert_kind. rewrite Hs. cbn [kind_of may_transition_active_idle bind]. rewrite encode_nosap_length.
+      rewrite (Hmark (set_st f (ActiveIdle None None 0)) eq_refl). cbn [bind].
+      eexists; eexists. split; [reflexivity|]. left. exists cc. split; [exact Hs|]. rewrite Er. split; reflexivity.
+    + rewrite Hs. cbn [get_listen_token bind andb].
+      rewrite encode_nosap_length, (Hmark (set_st f (ListenToken None cc)) eq_refl). cbn [bind].
+      eexists; eexists. split; [reflexivity|]. left. exists cc. split; [exact Hs|]. rewrite Er. split; reflexivity.
+  - unfold do_active_idle, assert_entry. rewrite Hs. cbn [f_state kind_of do_fn_entry state_kind_eqb bind].
+    unfold handle_lost_token, lba_get_or_insert. rewrite Hl, Hdiff. cbn [bind].
+    destruct (Z.leb_spec (token_lost_timeout (f_p f)) (now - l)) as [C|_]; [lia|]. cbn [bind].
+    rewrite Hs. cbn [get_active_idle bind].
+    unfold wait_synchronization_pause, lba_get_or_insert. rewrite Hl, Hadd. cbn [bind].
+    destruct (Z.leb_spec now (l + p_bits_to_time (f_p f) sync_pause_bits)) as [C|_]; [lia|].
+    unfold phy_send, transmit, status_response_header. rewrite encode_nosap. cbn [bind phy_transmit w_tx].
+    rewrite encode_nosap_length, (Hmark (set_st f (ActiveIdle None nps cc)) eq_refl). cbn [bind].
+    eexists; eexists. split; [reflexivity|]. right. exists nps, cc. split; [exact Hs|]. split; reflexivity.
+Qed.
+
+Lemma bits_to_time_up_nonneg b n : 0 <= n -> 0 <= bits_to_time_up b n.
+Proof. intros H. unfold bits_to_time_up. pose proof (baud_rate_pos b). apply Z.div_pos; lia. Qed.
+
+(* C12_status_reply_in_slot.  The station has a pending status request whose reception stamped
+   last_bus_activity = l (poll_marks_last_request: l is the time of the poll that received it).
+   It is polled at the times waits ++ [tk], at most P apart, with nothing further on the bus; tk is
+   the first of these later than l + 33 bit.  Then all earlier polls do nothing at all, the poll at
+   tk transmits the reply, tk <= l + 33 bit + P, and - when the request ended at t_end, at most one
+   poll period before l - the first byte of the reply is complete (plus 1 us rounding slack) before
+   t_end + Tslot, for every parameter set the builder accepts and every poll period P <= Tslot / 4. *)
+Theorem status_reply_in_slot f src l P waits tk (apps : list A) :
+  builder_valid (f_p f) -> f_conn f = ConnOnline -> reply_pending f src ->
+  f_lba f = Some l -> time_ok l -> time_ok tk ->
+  0 <= P -> 4 * P <= slot_time (f_p f) ->
+  spaced l P (waits ++ [tk]) -> Forall (fun t => t <= l + t_sync f) waits -> l + t_sync f < tk ->
+  (forall t, In t waits -> poll ops f t idle_in apps = Ok (f, mkPhyOut None [], apps, [])) /\
+  (exists f' st, poll ops f tk idle_in apps = Ok (f', mkPhyOut (Some (reply_wire src (ts f) st)) [], apps, []) /\
+                 reply_sent f f' src st) /\
+  tk <= l + t_sync f + P /\
+  (forall t_end, t_end <= l <= t_end + P ->
+     tk <= t_end + 2 * P + t_sync f /\
+     tk + bits_to_time_up (p_baud (f_p f)) bits_per_byte + 1 <= t_end + slot_time (f_p f)).
+Proof.
+  intros Hbv Hc Hst Hl Tl Tk HP H4 Hsp Hw Hk.
+  pose proof (t_sync_bounds f) as Hb.
+  destruct (spaced_first_after l P (t_sync f) waits tk (proj1 Hb) HP Hsp Hw) as [Hbound [Hafter Hlt]].
+  pose proof (slot_time_covers_reply (f_p f) P Hbv HP H4) as Hslot. fold (t_sync f) in Hslot.
+  pose proof (bits_to_time_up_nonneg (p_baud (f_p f)) bits_per_byte ltac:(vm_compute; discriminate)) as Hup.
+  pose proof (token_lost_timeout_ge_slot (f_p f) Hbv) as Hlost.
+  split; [|split; [|split]].
+  - intros t Hin. rewrite Forall_forall in Hw, Hafter. specialize (Hw t Hin). specialize (Hafter t Hin).
+    apply (reply_waits f src l t apps Hc Hst Hl Tl); [unfold time_ok in *; lia|lia|lia].
+  - apply (reply_goes_out f src l tk apps Hc Hst Hl Tl Tk Hk). lia.
+  - exact Hbound.
+  - intros t_end Hend. split; lia.
 Qed.
 
 End WithApps.
